@@ -162,3 +162,119 @@ Proof. vm_compute. reflexivity. Qed.
 Lemma rc_two_writers_race :
   rc_raced (rc_run 2 [(0, RWrite 7); (1, RWrite 7)]) = true.
 Proof. vm_compute. reflexivity. Qed.
+
+(* ------------------------------------------------------------------ lock discipline *)
+Section Lock.
+Variable progs : list (list (list (bool * nat))).
+Let n := length progs.
+
+Record lk_inv (s : rc_lst) : Prop := {
+  li_norace : rc_raced (ls_mon s) = false;
+  li_inside : forall t sec pos, nth_error (ls_pcs s) t = Some (sec, pos, true) -> ls_owner s = Some t;
+  li_w : forall x, rc_Wc (ls_mon s) x <= rc_L (ls_mon s) 0 (rc_Wt (ls_mon s) x)
+                   \/ ls_owner s = Some (rc_Wt (ls_mon s) x);
+  li_r : forall x u, rc_R (ls_mon s) x u <= rc_L (ls_mon s) 0 u \/ ls_owner s = Some u;
+  li_wc : forall x, rc_Wc (ls_mon s) x <= rc_C (ls_mon s) (rc_Wt (ls_mon s) x) (rc_Wt (ls_mon s) x);
+  li_rc : forall x u, rc_R (ls_mon s) x u <= rc_C (ls_mon s) u u;
+  li_own : forall t, ls_owner s = Some t -> forall u, rc_L (ls_mon s) 0 u <= rc_C (ls_mon s) t u
+}.
+
+Lemma lk_init_inv : lk_inv (rc_linit progs).
+Proof.
+  constructor; cbn; try reflexivity; try (intros; lia); try (intros; left; lia); try (intros; discriminate).
+  all: try (intros t sec pos H; rewrite nth_error_map in H; destruct (nth_error progs t); discriminate).
+Qed.
+
+Lemma lk_step_inv s t : lk_inv s -> lk_inv (rc_lstep progs s t).
+Proof.
+  intros I. destruct I as [I1 I2 I3 I4 I5 I6 I7]. unfold rc_lstep. fold n.
+  destruct (nth_error (ls_pcs s) t) as [[[sec pos] inside]|] eqn:Epc; [|constructor; assumption].
+  destruct (nth_error progs t) as [prog|] eqn:Epr; [|constructor; assumption].
+  destruct (nth_error prog sec) as [accs|] eqn:Esec; [|constructor; assumption].
+  destruct inside; cbn [negb].
+  - (* inside: owner = t *)
+    assert (Ho : ls_owner s = Some t) by (eapply I2; exact Epc).
+    destruct (nth_error accs pos) as [[w x]|] eqn:Eacc.
+    + (* access *)
+      assert (Hokw : rc_Wc (ls_mon s) x <= rc_C (ls_mon s) t (rc_Wt (ls_mon s) x)).
+      { destruct (I3 x) as [H|H].
+        - etransitivity; [exact H|]. apply I7. exact Ho.
+        - rewrite Ho in H. injection H as Ht. pose proof (I5 x) as H5. rewrite <- Ht in H5 at 1. exact H5. }
+      destruct w.
+      * (* write *)
+        constructor; cbn [ls_mon ls_owner ls_pcs rc_step rc_C rc_L rc_Wt rc_Wc rc_R rc_raced].
+        -- rewrite I1. cbn [orb]. apply Bool.negb_false_iff. apply andb_true_intro. split.
+           ++ apply Nat.leb_le. exact Hokw.
+           ++ apply forallb_forall. intros u _. apply Nat.leb_le.
+              destruct (I4 x u) as [H|H].
+              ** etransitivity; [exact H|]. apply I7. exact Ho.
+              ** rewrite Ho in H. inversion H; subst. apply I6.
+        -- intros t' sec' pos' H. unfold rc_set_nth in H.
+           destruct (Nat.eq_dec t t') as [<-|Hne]; [exact Ho|].
+           rewrite (la_nth_error_set_other' _ _ _ _ _ Hne Epc) in H. eapply I2. exact H.
+        -- intros y. unfold rc_upd. destruct (Nat.eqb_spec y x); [right; exact Ho|apply I3].
+        -- exact I4.
+        -- intros y. unfold rc_upd. destruct (Nat.eqb_spec y x); [lia|apply I5].
+        -- exact I6.
+        -- exact I7.
+      * (* read *)
+        constructor; cbn [ls_mon ls_owner ls_pcs rc_step rc_C rc_L rc_Wt rc_Wc rc_R rc_raced].
+        -- rewrite I1. cbn [orb]. apply Bool.negb_false_iff. apply Nat.leb_le. exact Hokw.
+        -- intros t' sec' pos' H. unfold rc_set_nth in H.
+           destruct (Nat.eq_dec t t') as [<-|Hne]; [exact Ho|].
+           rewrite (la_nth_error_set_other' _ _ _ _ _ Hne Epc) in H. eapply I2. exact H.
+        -- exact I3.
+        -- intros y u. unfold rc_upd. destruct (Nat.eqb_spec y x); [|apply I4].
+           destruct (Nat.eqb_spec u t); [right; subst; exact Ho|apply I4].
+        -- exact I5.
+        -- intros y u. unfold rc_upd. destruct (Nat.eqb_spec y x); [|apply I6].
+           destruct (Nat.eqb_spec u t); [subst; lia|apply I6].
+        -- exact I7.
+    + (* unlock *)
+      constructor; cbn [ls_mon ls_owner ls_pcs rc_step rc_C rc_L rc_Wt rc_Wc rc_R rc_raced].
+      * exact I1.
+      * intros t' sec' pos' H. unfold rc_set_nth in H. exfalso.
+        destruct (Nat.eq_dec t t') as [<-|Hne].
+        -- rewrite (la_nth_error_set_same _ _ _ _ Epc) in H. discriminate.
+        -- rewrite (la_nth_error_set_other' _ _ _ _ _ Hne Epc) in H.
+           pose proof (I2 _ _ _ H) as H'. rewrite Ho in H'. inversion H'. contradiction.
+      * intros x. left. rewrite rc_upd_same. unfold rc_join.
+        destruct (I3 x) as [H|H]; [lia|]. rewrite Ho in H. inversion H as [Ht].
+        pose proof (I5 x) as H5. rewrite <- Ht in *. lia.
+      * intros x u. left. rewrite rc_upd_same. unfold rc_join.
+        destruct (I4 x u) as [H|H]; [lia|]. rewrite Ho in H. inversion H; subst.
+        pose proof (I6 x u). lia.
+      * intros x. unfold rc_upd at 1. destruct (Nat.eqb_spec (rc_Wt (ls_mon s) x) t) as [E|E].
+        -- unfold rc_inc. rewrite E. rewrite rc_upd_same. pose proof (I5 x) as H5. rewrite E in H5. lia.
+        -- apply I5.
+      * intros x u. unfold rc_upd at 1. destruct (Nat.eqb_spec u t) as [E|E].
+        -- subst u. unfold rc_inc. rewrite rc_upd_same. pose proof (I6 x t). lia.
+        -- apply I6.
+      * intros t' H. discriminate.
+  - (* not inside: try to lock *)
+    destruct (ls_owner s) as [o|] eqn:Eo; [constructor; try assumption; rewrite Eo; assumption|].
+    constructor; cbn [ls_mon ls_owner ls_pcs rc_step rc_C rc_L rc_Wt rc_Wc rc_R rc_raced].
+    + exact I1.
+    + intros t' sec' pos' H. unfold rc_set_nth in H.
+      destruct (Nat.eq_dec t t') as [<-|Hne]; [reflexivity|].
+      rewrite (la_nth_error_set_other' _ _ _ _ _ Hne Epc) in H.
+      pose proof (I2 _ _ _ H). discriminate.
+    + intros x. left. destruct (I3 x) as [H|H]; [exact H|discriminate].
+    + intros x u. left. destruct (I4 x u) as [H|H]; [exact H|discriminate].
+    + intros x. unfold rc_upd. destruct (Nat.eqb_spec (rc_Wt (ls_mon s) x) t) as [E|E].
+      * unfold rc_join. pose proof (I5 x) as H5. rewrite E in *. lia.
+      * apply I5.
+    + intros x u. unfold rc_upd. destruct (Nat.eqb_spec u t) as [E|E].
+      * subst u. unfold rc_join. pose proof (I6 x t). lia.
+      * apply I6.
+    + intros t' H u. inversion H; subst t'. rewrite rc_upd_same. unfold rc_join. lia.
+Qed.
+
+Theorem lk_race_free sched : rc_raced (ls_mon (rc_lrun progs sched)) = false.
+Proof.
+  apply li_norace. unfold rc_lrun. generalize lk_init_inv. generalize (rc_linit progs).
+  induction sched as [|t r IH]; intros s H; cbn [fold_left]; [exact H|].
+  apply IH. apply lk_step_inv. exact H.
+Qed.
+
+End Lock.
